@@ -230,7 +230,7 @@ func buildMaterial(r *mon.Rand) *material {
 	must(err)
 	m.legBCtASN1, err = sm2.EncryptASN1(script(seed, "legBct"), w.legBPub, m.msg)
 	must(err)
-	m.legACt2, err = sm2.Encrypt(script(seed, "legAct2"), w.legAPub, m.msgBig[:130], nil)
+	m.legACt2, err = sm2.Encrypt(script(seed, "legAct2"), w.legAPub, m.msgBig[:min(130, len(m.msgBig))], nil)
 	must(err)
 	ek, err := sm2.NewPrivateKey(m.envKey)
 	must(err)
